@@ -22,7 +22,7 @@ claimed = {
          "bounded symbolic execution with exhaustive schedule forking (engine threads) + vector-clock race detection + SMT for the symbolic ids"),
  "C05": std("AMF0 trees (shapes forked, contents symbolic: all 2^64 number bit patterns incl. NaN payloads/-0, booleans, string bytes) marshal to exactly Size() bytes, unmarshal to an equal tree in key order and re-marshal to the same bytes; for every byte string up to the bound that decodes, Size() equals the bytes consumed as counted by an independent grammar-level decoder, including repeated/empty keys and trailing bytes."),
  "C06": std("Library encodings are decoded to the same value by a reference decoder written from the AMF0 specification and reference encodings by the library; all 256 markers: supported ones give the right type, all others an error. One recorded known finding (keyed strict arrays)."),
- "C13": ("Claimed for the uncompressed data path on constructed connections: messages written by a client or server endpoint through every write API (WriteMessage, NextWriter+partial Writes at every split, WriteString, ReadFrom, prepared message) with small and default write buffers put only whole RFC 6455 frames on the wire (FIN/continuation sequencing, masking per role, minimal length form at the 125/126 and 65535/65536 boundaries, RSV clear) as judged by an independent frame parser, and the peer reads the same (type, payload) sequence; payload bytes and the mask key are symbolic. Per-message deflate, Dial/Upgrade/accept-key negotiation and the JSON helpers are NOT claimed (compress/flate, net/http, SHA-1, encoding/json are not encodable).",
+ "C13": ("Claimed for constructed connections (no handshake): messages written by a client or server endpoint through every write API (WriteMessage, NextWriter+partial Writes at every split, WriteString, ReadFrom, prepared message) with small and default write buffers put only whole RFC 6455 frames on the wire (FIN/continuation sequencing, masking per role, minimal length form at the 125/126 and 65535/65536 boundaries, RSV clear) as judged by an independent frame parser, and the peer reads the same (type, payload) sequence; payload bytes and the mask key are symbolic. Per-message deflate is covered in a reduced form (compress/flate is interpreted: concrete payloads for the Huffman levels, symbolic payloads for stored blocks; RSV1 on the first frame only, an RFC 7692 receiver recovers the message, and the library reads what an RFC 7692 sender wrote under forked fragmentation). Dial/Upgrade/accept-key/extension negotiation and the JSON helpers are NOT claimed (net/http, SHA-1, encoding/json are not encodable).",
          "Subset as stated; bounds in evidence.coverage.bounds. " + TRUST,
          "bounded symbolic execution of go/ssa + SMT, differential against an RFC 6455 reference frame parser"),
  "C14": std("WebSocket reader vs a reference RFC 6455 receiver: one frame from an arbitrary valid reader state with all header bytes symbolic (every 64-bit length incl. >= 2^63, every opcode/RSV/mask combination, symbolic read limit and message size) and sequences of frames of forked kinds: accept/reject decision, 1002 close on violation, permanent failure, pong echo, read-limit enforcement without overflow, cut streams never yield a short message."),
@@ -34,7 +34,7 @@ claimed = {
          "Subset as stated. " + TRUST,
          "bounded symbolic execution with schedule forking + vector-clock race detection"),
  "C20": std("Rate meters: a window samples iff a full window passed (integer/time logic by bit-vector queries), slower windows only after faster ones, rate bit-exactly equal to the IEEE evaluation of growth*1000/window_ms and proved finite and non-negative for every counter value (stall, backwards, wrap) in the FP theory; average and kbit/s scaling likewise; reading before Start panics."),
- "C07": ("For every byte string up to the stated length given to each claimed decoder, every panic site (index, slice bounds, nil dereference, make size, division, type assertion) is shown infeasible by the solver on every path, and every path terminates within its step budget (a budget overrun is replayed natively under a watchdog and reported as a stall only if the real code hangs); enum helpers are total over their whole underlying type. Claimed for the byte-level decoders only: JWS/JWE/JWK/OCSP parsing needs encoding/json, encoding/asn1, reflection and math/big, which the engine cannot encode, and no complexity (linear-time) claim is made.",
+ "C07": ("For every byte string up to the stated length given to each claimed decoder, every panic site (index, slice bounds, nil dereference, make size, division, type assertion) is shown infeasible by the solver on every path, and every path terminates within its step budget (a budget overrun is replayed natively under a watchdog and reported as a stall only if the real code hangs); enum helpers are total over their whole underlying type. Claimed for the byte-level decoders only: JWS/JWE/JWK/OCSP parsing needs encoding/json, encoding/asn1, reflection and math/big, which the engine cannot encode. The linear-time clause is checked for AMF0 only (nested and wide containers at three sizes under the cost model instructions interpreted + elements copied); for the other decoders only termination within the step budget is claimed.",
          "Subset and bounds in evidence.coverage.bounds and assumptions. " + TRUST,
          "bounded symbolic execution of go/ssa + SMT: panic-site infeasibility queries over arbitrary input bytes"),
  "C08": ("Fault enumeration decided per path by the solver: every cut offset of generated RTMP sessions and FLV files and every failing write call is a forked fault position; on each, the operation returns a non-nil error whose errors.Cause is exactly the transport's error, the items returned before are exactly those completely transferred (contents symbolic), and nothing incomplete is returned with a nil error; the errors package keeps cause and message chain for every nesting of its constructors.",
